@@ -26,6 +26,8 @@ func main() {
 			os.Exit(2)
 		}
 		os.Exit(workerMain(os.Args[2], os.Args[3]))
+	case "crashchild":
+		os.Exit(crashChildMain(os.Args[2]))
 	case "cases":
 		// vcheck cases <prop> <tier> <seed>: print the case list as JSON
 		p := props[os.Args[2]]
